@@ -13,6 +13,18 @@ use uuid::Uuid;
 
 use crate::hist::{Hist, Op, Xv};
 
+/// The LD_PRELOAD interposer (harness/svio), when loaded: bytes of [a,b) of `path` written but not yet covered by a sync.
+fn svio_dirty_in(path: &Path, a: u64, b: u64) -> Option<i64> {
+    use std::ffi::CString;
+    unsafe {
+        let sym = libc::dlsym(libc::RTLD_DEFAULT, c"svio_dirty_in".as_ptr());
+        if sym.is_null() { return None; }
+        let f: extern "C" fn(*const libc::c_char, i64, i64) -> i64 = std::mem::transmute(sym);
+        let p = CString::new(std::fs::canonicalize(path).ok()?.to_string_lossy().as_bytes()).ok()?;
+        Some(f(p.as_ptr(), a as i64, b as i64))
+    }
+}
+
 pub fn key_uuid(k: usize) -> Uuid {
     let hash = 100 + k as u128;
     Uuid::from_u128((0x0190u128 << 112) | (0x7u128 << 76) | (0x2u128 << 62) | (hash << 46) | (k as u128 + 1))
@@ -59,6 +71,7 @@ impl World {
         let root = tempfile::Builder::new().prefix("sv-store-").tempdir().unwrap();
         World { h, root, gen_: 0, db: None, stored: HashMap::new(), by_uuid: HashMap::new(), stream_by_name: HashMap::new(), last_append: None, sync_ms: 2, max_append_ms: 0 }
     }
+    pub fn keep(&mut self) -> PathBuf { let p = self.root.path().to_path_buf(); let t = std::mem::replace(&mut self.root, tempfile::tempdir().unwrap()); let _ = t.keep(); p }
     fn dir(&self) -> PathBuf { self.root.path().join(format!("db{}", self.gen_)) }
 
     fn open(&mut self) -> Result<(), String> {
@@ -185,10 +198,11 @@ impl World {
                             self.stream_by_name.insert(stream_name(e.sid), e.sid);
                         }
                         self.last_append = Some((bucket, ar.offsets.to_vec(), evs.len() > 1));
+                        let durable = self.durable_at_ack(bucket, &ar.offsets, evs.len() + (evs.len() > 1) as usize);
                         let mut sv: Vec<(u64, u64)> = ar.stream_versions.iter().map(|(s, v)| (self.stream_by_name[&s.to_string()], *v)).collect();
                         sv.sort();
-                        format!("ok {} {} {}", ar.first_partition_sequence, ar.last_partition_sequence,
-                            sv.iter().map(|(s, v)| format!("s{s}={v}")).collect::<Vec<_>>().join(","))
+                        format!("ok {} {} {}{}", ar.first_partition_sequence, ar.last_partition_sequence,
+                            sv.iter().map(|(s, v)| format!("s{s}={v}")).collect::<Vec<_>>().join(","), durable)
                     }
                     Ok(Err(e)) => { self.last_append = None; format!("err {}", self.render_werr(&e)) }
                 }
@@ -276,6 +290,34 @@ impl World {
                 // events of the torn transaction that did not survive are forgotten by the harness
                 match self.open() { Ok(()) => "ok".into(), Err(e) => format!("err {e}") }
             }
+        }
+    }
+
+    fn live_path(&self, bucket: u16) -> Option<PathBuf> {
+        let segs = self.dir().join("buckets").join(format!("{bucket:05}")).join("segments");
+        let mut ids: Vec<u32> = std::fs::read_dir(&segs).ok()?
+            .filter_map(|e| e.ok()).filter(|e| e.path().join("data.evts").exists())
+            .filter_map(|e| e.file_name().to_string_lossy().parse().ok()).collect();
+        ids.sort();
+        Some(segs.join(format!("{:010}", ids.last()?)).join("data.evts"))
+    }
+
+    /// At acknowledgement time: were all bytes of the transaction written and covered by an fdatasync?
+    /// (observed through the LD_PRELOAD interposer, independent of the Rust source). "" = yes / not observable.
+    fn durable_at_ack(&self, bucket: u16, offsets: &[u64], nrec: usize) -> String {
+        let Some(path) = self.live_path(bucket) else { return String::new(); };
+        let Ok(bytes) = std::fs::read(&path) else { return String::new(); };
+        let mut o = offsets[0] as usize;
+        for _ in 0..nrec {
+            if o + 4 > bytes.len() { return " !unwritten".into(); }
+            let len = u32::from_le_bytes(bytes[o..o + 4].try_into().unwrap()) & 0x7FFF_FFFF;
+            if len == 0 { return " !unwritten".into(); }
+            o += 8 + len as usize;
+        }
+        match svio_dirty_in(&path, offsets[0], o as u64) {
+            Some(0) | None => String::new(),
+            Some(-1) => " !unwritten".into(),
+            Some(n) => format!(" !unsynced={n}"),
         }
     }
 
